@@ -17,6 +17,7 @@ EXPLANATION = (
     "C09.8 the errno carrier is lossless: Errno's field holds at least 16 bits and Errno::new / Errno::raw pass the code through unchanged; C09.4 on the success edge the Ok payload is the result itself, a cast of it or unrelated to it (no arithmetic on it), and for calls whose success value is a full-width quantity (offsets, byte counts, addresses) it never passes through a 32-bit cast or the 31-bit descriptor decoder; "
     "C09.5 no raw syscall site lies on a CFG cycle except dup's documented EBUSY retry, whose back edge must be on the classified error path with errno == EBUSY; "
     "C09.6 wrappers returning a descriptor build it with coerce_from_register. "
+    "C09.4 also: no component of a wrapper's success value is simply the caller's own argument handed back. C09.2 also: nothing can end a wrapper between the call and the classification of its result. "
     "NOT decided: what the kernel returns; behaviour under forced results (fault injection).")
 ASSUMPTIONS = ["reviewed table of infallible / non-returning calls (see rule module)",
                "sc::syscallN returns the raw rax/x0 register value"]
